@@ -4,7 +4,7 @@ import PynModel.Basic
 The comparison `data > thr` (etc.) is done by NumPy before the scan; the model takes the Boolean
 mask `ix`.  The reads of `ends[k]` are *not* guarded in the Python source: they are checked reads here, and
 `PynProps/C15.lean: threshold_safe` proves the error unreachable for a series lying inside a canonical
-support (any length, 0 and 1 included, since `fix:` efb22ea).
+support (any length, 0 and 1 included, since `fix:` efb22ea); with no epoch at all the kernel returns before the scan.
 Midpoints `t[i] - (t[i] - t[i-1]) / 2` are kept exact by returning every boundary **doubled**
 (`t[i] + t[i-1]`, and `2 * t[i]` for a sample time).
 -/
@@ -56,8 +56,9 @@ def thrInit (n : Nat) (i0 : Bool) (t0 : Int) (k : Nat) : ThrSt :=
   let none_ : Array (Option Int) := Array.replicate n none
   { k := k, ns := if i0 then none_.setIfInBounds 0 (some (2*t0)) else none_, ne := none_ }
 
-/-- result: (doubled new starts, doubled new ends), as the kernel stands after `fix:` d92f793 / 6abb03b / efb22ea -/
-def jitthreshold (ts : Array Int) (ix : Array Bool) (st en : Array Int) :
+/-- the scan (everything after the `if ends.shape[0] == 0` guard): (doubled new starts, doubled new ends), as the kernel
+stands after `fix:` d92f793 / 6abb03b / efb22ea -/
+def jitthresholdScan (ts : Array Int) (ix : Array Bool) (st en : Array Int) :
     R (Array Int × Array Int) := do
   let n := ts.size
   let k ← thrLead ts en 0
@@ -70,5 +71,15 @@ def jitthreshold (ts : Array Int) (ix : Array Bool) (st en : Array Int) :
   let tl ← if 0 < n then rd ts (n-1) else pure 0
   let ne1 := if il then s.ne.setIfInBounds (n-1) (some (2*tl)) else s.ne
   pure (s.ns.filterMap id, ne1.filterMap id)
+
+/-- the kernel: with NO epoch at all (the default support of a one-sample series is empty) nothing is scanned and no
+interval is returned (guard added by `fix:` — the scan would read `ends[0]`) -/
+def jitthreshold (ts : Array Int) (ix : Array Bool) (st en : Array Int) :
+    R (Array Int × Array Int) :=
+  if en.size = 0 then pure (#[], #[]) else jitthresholdScan ts ix st en
+
+theorem jitthreshold_eq_scan (ts : Array Int) (ix : Array Bool) (st en : Array Int) (h : 0 < en.size) :
+    jitthreshold ts ix st en = jitthresholdScan ts ix st en := by
+  unfold jitthreshold; rw [if_neg (by omega)]
 
 end Pyn
